@@ -30,10 +30,12 @@ Every hypothesis of a registered theorem is one of:
   to its right (`all_zero_end` shows both are needed), the fresh label of `splice_one_new`, "the textgrid
   ended where the audio ended" of `splice_sync`.
 * **needed, and the real code misbehaves without it** (a `_counterexample` theorem each, replayed on the
-  code): a monotone, non-collapsing search in `zcTier_I_mono` (`tgBoundaries_collapse_counterexample`); an
-  insertion point inside the span (`splice_outside_counterexample`); a segment with the audio's rate and width
-  (`splice_segment_params_counterexample`); completeness of the search is not a hypothesis but is not a
-  theorem either (`incomplete_counterexample`).
+  code): a monotone, non-collapsing search in `zcTier_I_mono` (`tgBoundaries_collapse_counterexample`);
+  completeness of the search is not a hypothesis but is not a theorem either (`incomplete_counterexample`).
+* **were needed and are now enforced by the code** (defect C18-3, repaired by f81e27e; section 14b): an insertion
+  point inside the textgrid's span (`splice_outside_rejected`; `splice_outside_counterexample` records what the
+  unrepaired code returned), a segment with the audio's rate and width (`splice_params_rejected`;
+  `splice_segment_params_counterexample`), a region that is not reversed (`splice_reversed_rejected`).
 
 Removed by the audit: label already stripped (`splice_*`: the entry carries `pyStrip label`), insertion point
 inside the tier's span (`splice_tier_spec`, `splice_one_new`, `splice_tier_straddler`, `insertSpace_tier_hi`),
@@ -314,35 +316,120 @@ recording that is a genuine crossing -/
 def Cand (m : Nat) (xs : List Int) (t : Int) : Prop :=
   ∃ k : Nat, t = (k : Int) * (m : Int) ∧ Genuine xs k
 
-theorem iter_cand (m : Nat) (hm : 0 < m) (xs : List Int) (dur start : Int) (within : Bool) (step : Int) (rev : Bool) :
-    ∃ o, iterZeroCrossings (listReader m xs) m dur start within step rev = .ok o ∧ ∀ t, o = some t → Cand m xs t := by
-  unfold iterZeroCrossings
+/-- the window handed to `getSamples` is never reversed (so `_validateTimeRange` never raises inside the search):
+backwards from a start `> 0` that is not beyond `mx + d`, forwards from a start `≥ 0` (after the clamping) not
+beyond `mx` -/
+theorem getInterval_ordered (start d mx : Int) (rev : Bool) (hd : 0 ≤ d)
+    (h : if rev = true then 0 ≤ start ∧ start - d ≤ mx else 0 ≤ start + d ∧ start ≤ mx) :
+    (getInterval start d mx rev).1 ≤ (getInterval start d mx rev).2 := by
+  unfold getInterval
+  cases rev
+  · simp only [Bool.false_eq_true, if_false] at h ⊢
+    split
+    · simp only; omega
+    · split <;> simp only <;> omega
+  · simp only [if_true] at h ⊢
+    split
+    · simp only; omega
+    · split <;> simp only <;> omega
+
+/-- whatever a window returns is the time of a genuine crossing of the recording -/
+theorem iter_cand (m : Nat) (hm : 0 < m) (xs : List Int) (dur start : Int) (within : Bool) (step : Int) (rev : Bool)
+    (o : Option Int) (h : iterZeroCrossings (listReader m xs) m dur start within step rev = .ok o) :
+    ∀ t, o = some t → Cand m xs t := by
+  unfold iterZeroCrossings at h
   cases within with
-  | false => exact ⟨none, rfl, by intro t ht; cases ht⟩
+  | false =>
+    simp only [Bool.not_false, if_true, Except.ok.injEq] at h
+    subst h; intro t ht; cases ht
   | true =>
-    simp only [Bool.not_true, Bool.false_eq_true, if_false, listReader]
-    refine ⟨_, rfl, ?_⟩
+    simp only [Bool.not_true, Bool.false_eq_true, if_false, listReader] at h
+    by_cases hrev : (getInterval start step dur rev).2 < (getInterval start step dur rev).1
+    · rw [if_pos hrev] at h; cases h
+    rw [if_neg hrev] at h
+    simp only [Except.ok.injEq] at h
+    subst h
     intro t ht
     unfold findNextZeroCrossing at ht
     have hq0 := C16.roundHalfEven_nonneg _ m hm (getInterval_fst_nonneg start step dur rev)
     generalize roundHalfEven (getInterval start step dur rev).1 m = q at *
-    cases hn : nextIdx (slice xs q (roundHalfEven (getInterval start step dur rev).2 m)) rev with
+    have hc0 : (0 : Int) ≤ ((clampSample q xs.length : Nat) : Int) := by omega
+    cases hn : nextIdx (slice xs ((clampSample q xs.length : Nat) : Int)
+        ((clampSample (roundHalfEven (getInterval start step dur rev).2 m) xs.length : Nat) : Int)) rev with
     | none => rw [hn] at ht; simp at ht
     | some z =>
       rw [hn] at ht
       simp only [Option.map_some, Option.some.injEq] at ht
-      have hg := genuine_of_slice xs _ _ hq0 z (crossing_genuine _ rev z hn)
-      refine ⟨q.toNat + z, ?_, hg⟩
-      rw [← ht, Int.natCast_add, Int.toNat_of_nonneg hq0, Int.add_mul]
+      have hgs := crossing_genuine _ rev z hn
+      have hg := genuine_of_slice xs _ _ hc0 z hgs
+      -- the window is not empty, so its start index was not clamped: it is `q` itself
+      have hlen := slice_length_le xs ((clampSample q xs.length : Nat) : Int)
+        ((clampSample (roundHalfEven (getInterval start step dur rev).2 m) xs.length : Nat) : Int) hc0
+      have hzlt := hgs.1
+      have hcq : ((clampSample q xs.length : Nat) : Int) = q := by
+        unfold clampSample at hlen hzlt ⊢; omega
+      rw [Int.toNat_natCast] at hg
+      refine ⟨clampSample q xs.length + z, ?_, hg⟩
+      rw [← ht, Int.natCast_add, hcq, Int.add_mul]
 
-/-- one round on a plain sample list never raises, and both candidates are crossings -/
-theorem round_list (m : Nat) (hm : 0 < m) (xs : List Int) (dur step a b : Int) :
+/-- a window of the search never raises on a plain sample list: its bounds are ordered -/
+theorem iter_ok (m : Nat) (xs : List Int) (dur start : Int) (within : Bool) (step : Int) (rev : Bool)
+    (hord : within = true → (getInterval start step dur rev).1 ≤ (getInterval start step dur rev).2) :
+    ∃ o, iterZeroCrossings (listReader m xs) m dur start within step rev = .ok o := by
+  unfold iterZeroCrossings
+  cases within with
+  | false => exact ⟨none, rfl⟩
+  | true =>
+    simp only [Bool.not_true, Bool.false_eq_true, if_false, listReader]
+    have := hord rfl
+    rw [if_neg (by omega)]
+    exact ⟨_, rfl⟩
+
+/-- the cursors of the search: the left one never beyond the end, the right one never before the start -/
+def CurOk (dur : Int) (a b : Int) : Prop := a ≤ dur ∧ 0 ≤ b
+
+theorem round_ord (dur step : Int) (m : Nat) (a b : Int) (hs : 0 ≤ step) (hc : CurOk dur a b) :
+    (decide (0 < a) = true → (getInterval a (step + m) dur true).1 ≤ (getInterval a (step + m) dur true).2) ∧
+    (decide (b + step < dur) = true → (getInterval b (step + m) dur false).1 ≤ (getInterval b (step + m) dur false).2) := by
+  obtain ⟨ha, hb⟩ := hc
+  constructor
+  · intro h
+    have h' : 0 < a := of_decide_eq_true h
+    exact getInterval_ordered a (step + m) dur true (by omega) (by simp only [if_true]; omega)
+  · intro h
+    have h' : b + step < dur := of_decide_eq_true h
+    exact getInterval_ordered b (step + m) dur false (by omega) (by simp only [Bool.false_eq_true, if_false]; omega)
+
+/-- both candidates of a round are crossings -/
+theorem round_cand (m : Nat) (hm : 0 < m) (xs : List Int) (dur step a b : Int) (l r : Option Int)
+    (h : Zero.round (listReader m xs) m dur step a b = .ok (l, r)) :
+    (∀ t, l = some t → Cand m xs t) ∧ (∀ t, r = some t → Cand m xs t) := by
+  unfold Zero.round at h
+  cases hl : iterZeroCrossings (listReader m xs) m dur a (decide (0 < a)) (step + m) true with
+  | error e => rw [hl] at h; cases h
+  | ok l' =>
+    rw [hl] at h
+    simp only at h
+    cases hr : iterZeroCrossings (listReader m xs) m dur b (decide (b + step < dur)) (step + m) false with
+    | error e => rw [hr] at h; cases h
+    | ok r' =>
+      rw [hr] at h
+      simp only [Except.ok.injEq, Prod.mk.injEq] at h
+      obtain ⟨rfl, rfl⟩ := h
+      exact ⟨iter_cand m hm xs dur a _ _ true l' hl, iter_cand m hm xs dur b _ _ false r' hr⟩
+
+/-- one round on a plain sample list never raises — for a non-negative step and cursors as the search keeps them
+(`CurOk`; the windows are then ordered, so the `ArgumentError` of a reversed range cannot arise) — and both
+candidates are crossings -/
+theorem round_list (m : Nat) (hm : 0 < m) (xs : List Int) (dur step a b : Int) (hs : 0 ≤ step) (hc : CurOk dur a b) :
     ∃ l r, Zero.round (listReader m xs) m dur step a b = .ok (l, r) ∧
       (∀ t, l = some t → Cand m xs t) ∧ (∀ t, r = some t → Cand m xs t) := by
-  obtain ⟨l, hl, hlc⟩ := iter_cand m hm xs dur a (decide (0 < a)) (step + m) true
-  obtain ⟨r, hr, hrc⟩ := iter_cand m hm xs dur b (decide (b + step < dur)) (step + m) false
-  refine ⟨l, r, ?_, hlc, hrc⟩
-  unfold Zero.round; rw [hl]; simp only; rw [hr]
+  have ⟨o1, o2⟩ := round_ord dur step m a b hs hc
+  obtain ⟨l, hl⟩ := iter_ok m xs dur a (decide (0 < a)) (step + m) true o1
+  obtain ⟨r, hr⟩ := iter_ok m xs dur b (decide (b + step < dur)) (step + m) false o2
+  have hround : Zero.round (listReader m xs) m dur step a b = .ok (l, r) := by
+    unfold Zero.round; rw [hl]; simp only; rw [hr]
+  exact ⟨l, r, hround, round_cand m hm xs dur step a b l r hround⟩
 
 /-! ## 6. (f) `chooseClosestTime` -/
 
@@ -471,6 +558,39 @@ theorem loop_error (rd : Reader) (m : Nat) (dur target step : Int) (e : Err) :
           exact Or.inl h.symm
         · rw [if_neg hx] at h
           exact ih _ _ h
+
+/-- `loop_error` with an invariant of the cursor update -/
+theorem loop_error_inv (rd : Reader) (m : Nat) (dur target step : Int) (e : Err) (Inv : Int → Int → Prop)
+    (hstep : ∀ a b, Inv a b → Inv (a - step) (b + step)) :
+    ∀ fuel left right, Inv left right → loop rd m dur target step fuel left right = some (.error e) →
+      e = .FindZeroCrossingError ∨ ∃ a b, Inv a b ∧ Zero.round rd m dur step a b = .error e := by
+  intro fuel
+  induction fuel with
+  | zero => intro left right _ h; simp [loop] at h
+  | succ f ih =>
+    intro left right hinv h
+    unfold loop at h
+    cases hr : Zero.round rd m dur step left right with
+    | error e' =>
+      rw [hr] at h
+      simp only [Option.some.injEq, Except.error.injEq] at h
+      subst h
+      exact Or.inr ⟨left, right, hinv, hr⟩
+    | ok p =>
+      obtain ⟨l, r⟩ := p
+      rw [hr] at h
+      simp only at h
+      by_cases hs : (l.isSome || r.isSome) = true
+      · rw [if_pos hs] at h
+        obtain ⟨v, hv⟩ := chooseClosest_ok_of_some target l r hs
+        rw [hv] at h; simp at h
+      · rw [if_neg hs] at h
+        by_cases hx : left < 0 ∧ dur < right
+        · rw [if_pos hx] at h
+          simp only [Option.some.injEq, Except.error.injEq] at h
+          exact Or.inl h.symm
+        · rw [if_neg hx] at h
+          exact ih _ _ (hstep _ _ hinv) h
 
 /-! ## 8. (b) search_terminates -/
 
@@ -658,10 +778,7 @@ theorem search_cand (m : Nat) (hm : 0 < m) (xs : List Int) (target step t : Int)
     (h : searchList m xs target step = .ok t) : Cand m xs t := by
   obtain ⟨_, a, b, l, r, _, hr, _, hc⟩ :=
     searchList_ok m hm xs target step t (fun _ _ => True) trivial (fun _ _ _ => trivial) h
-  obtain ⟨l', r', hr', hl', hrr'⟩ := round_list m hm xs (durOf m xs) step a b
-  rw [hr] at hr'
-  simp only [Except.ok.injEq, Prod.mk.injEq] at hr'
-  obtain ⟨rfl, rfl⟩ := hr'
+  obtain ⟨hl', hrr'⟩ := round_cand m hm xs (durOf m xs) step a b l r hr
   rcases (chooseClosest_spec target l r t hc).1 with h1 | h1
   · exact hl' t h1
   · exact hrr' t h1
@@ -717,9 +834,11 @@ theorem errors_documented (m : Nat) (hm : 0 < m) (xs : List Int) (target step : 
     refine Or.inr ⟨hs', ?_⟩
     have hl := searchList_loop m hm xs target step hs'
     rw [h] at hl
-    rcases loop_error _ m _ target step e _ _ _ hl with h1 | ⟨a, b, h1⟩
+    have hm0 : (0 : Int) ≤ m := by omega
+    rcases loop_error_inv _ m _ target step e (CurOk (durOf m xs)) (fun a b hc => ⟨by have := hc.1; omega, by have := hc.2; omega⟩)
+      _ _ _ ⟨by omega, by omega⟩ hl with h1 | ⟨a, b, hc, h1⟩
     · exact h1
-    · obtain ⟨l, r, hr, _⟩ := round_list m hm xs (durOf m xs) step a b
+    · obtain ⟨l, r, hr, _⟩ := round_list m hm xs (durOf m xs) step a b (by omega) hc
       rw [hr] at h1; cases h1
 
 /-- a recording without a zero sample whose samples all have the same sign -/
@@ -737,23 +856,28 @@ theorem flat_of_neg (xs : List Int) (h : ∀ x ∈ xs, x < 0) : Flat xs := by
   have h1 := h a ha; have h2 := h b hb
   unfold sign; rw [if_neg (by omega), if_pos h1, if_neg (by omega), if_pos h2]
 
-theorem iter_flat (m : Nat) (xs : List Int) (hf : Flat xs) (dur start : Int) (within : Bool) (step : Int) (rev : Bool) :
+theorem iter_flat (m : Nat) (xs : List Int) (hf : Flat xs) (dur start : Int) (within : Bool) (step : Int) (rev : Bool)
+    (hord : within = true → (getInterval start step dur rev).1 ≤ (getInterval start step dur rev).2) :
     iterZeroCrossings (listReader m xs) m dur start within step rev = .ok none := by
   unfold iterZeroCrossings
   cases within with
   | false => rfl
   | true =>
     simp only [Bool.not_true, Bool.false_eq_true, if_false, listReader]
+    have := hord rfl
+    rw [if_neg (by omega)]
+    simp only
     unfold findNextZeroCrossing
     rw [nextIdx_none]
     · rfl
     · intro h0; exact hf.1 (mem_of_mem_slice xs _ _ 0 h0)
     · intro a ha b hb; exact hf.2 a (mem_of_mem_slice xs _ _ a ha) b (mem_of_mem_slice xs _ _ b hb)
 
-theorem round_flat (m : Nat) (xs : List Int) (hf : Flat xs) (dur step a b : Int) :
+theorem round_flat (m : Nat) (xs : List Int) (hf : Flat xs) (dur step a b : Int) (hs : 0 ≤ step) (hc : CurOk dur a b) :
     Zero.round (listReader m xs) m dur step a b = .ok (none, none) := by
+  have ⟨o1, o2⟩ := round_ord dur step m a b hs hc
   unfold Zero.round
-  rw [iter_flat m xs hf]; simp only; rw [iter_flat m xs hf]
+  rw [iter_flat m xs hf _ _ _ _ _ o1]; simp only; rw [iter_flat m xs hf _ _ _ _ _ o2]
 
 /-- **no crossing → the documented error**: on an all-positive (or all-negative) recording — the empty
 recording included — every call with an admissible step raises `FindZeroCrossingError`, never a value (a
@@ -764,9 +888,11 @@ theorem no_crossing_error (m : Nat) (hm : 0 < m) (xs : List Int) (hf : Flat xs) 
   cases h : searchList m xs target step with
   | ok t =>
     exfalso
-    obtain ⟨_, a, b, l, r, _, hr, hsome, _⟩ :=
-      searchList_ok m hm xs target step t (fun _ _ => True) trivial (fun _ _ _ => trivial) h
-    rw [round_flat m xs hf] at hr
+    have hm0 : (0 : Int) ≤ m := by omega
+    obtain ⟨_, a, b, l, r, hc, hr, hsome, _⟩ :=
+      searchList_ok m hm xs target step t (CurOk (durOf m xs)) ⟨by omega, by omega⟩
+        (fun a b hc => ⟨by have := hc.1; omega, by have := hc.2; omega⟩) h
+    rw [round_flat m xs hf _ _ _ _ (by omega) hc] at hr
     simp only [Except.ok.injEq, Prod.mk.injEq] at hr
     obtain ⟨rfl, rfl⟩ := hr
     simp at hsome
@@ -835,24 +961,30 @@ theorem all_zero_target (m : Nat) (hm : 0 < m) (xs : List Int) (hz : ∀ x ∈ x
       have e1 : k * (m : Int) + (m : Int) = (k + 1) * (m : Int) := by rw [Int.add_mul, Int.one_mul]
       rw [e1, C16.roundHalfEven_exact (k + 1) m hm] at this
       exact this
-    rw [hi]
+    rw [if_neg (by omega), hi]
+    simp only
     generalize roundHalfEven e m = j at hj
+    have hck : ((clampSample k xs.length : Nat) : Int) = k := C16.clampSample_of_range k _ hk (by omega)
+    rw [hck]
+    have hcj : k + 1 ≤ ((clampSample j xs.length : Nat) : Int) := by unfold clampSample; omega
+    generalize ((clampSample j xs.length : Nat) : Int) = j' at hcj
     -- the window is a non-empty list of zeros
-    have hlen : 0 < (slice xs k j).length := by
+    have hlen : 0 < (slice xs k j').length := by
       unfold slice pyClamp
       simp only [List.length_drop, List.length_take]
       rw [if_neg (by omega), if_neg (by omega)]
       omega
-    cases hys : slice xs k j with
+    cases hys : slice xs k j' with
     | nil => rw [hys] at hlen; simp at hlen
     | cons y ys =>
-      have hy : y = 0 := hz y (mem_of_mem_slice xs k j y (by rw [hys]; simp))
+      have hy : y = 0 := hz y (mem_of_mem_slice xs k j' y (by rw [hys]; simp))
       subst hy
       unfold findNextZeroCrossing nextIdx nearestZero find
       simp only [Bool.false_eq_true, if_false]
       rw [index?_head]
       simp
-  obtain ⟨l, hl, _⟩ := iter_cand m hm xs (durOf m xs) (k * (m : Int)) (decide (0 < k * (m : Int))) (step + m) true
+  obtain ⟨l, hl⟩ := iter_ok m xs (durOf m xs) (k * (m : Int)) (decide (0 < k * (m : Int))) (step + m) true
+    (fun _ => getInterval_ordered _ _ _ true (by omega) (by simp only [if_true]; omega))
   have hround : Zero.round (listReader m xs) m (durOf m xs) step (k * (m : Int)) (k * (m : Int)) =
       .ok (l, some (k * (m : Int))) := by
     unfold Zero.round; rw [hl]; simp only; rw [hright]
@@ -954,17 +1086,26 @@ theorem unpack_slice (w : Nat) (hw : 0 < w) (f : List UInt8) (n : Nat) (hf : f.l
   · simp only [List.length_drop, htl, ← Nat.sub_mul]
     exact Nat.mul_mod_left _ _
 
-/-- **getSamples at any two times** (negative, beyond the end, reversed, off the grid) on a recording
-of whole samples is `samples[round(s·rate) : round(e·rate)]` with Python's slice semantics, and
-never raises -/
+/-- **getSamples at any two times** (negative, beyond the end, off the grid) on a recording of whole samples:
+a reversed pair raises `ArgumentError` (commit 0a07868); every other pair returns `samples[i : j]` with `i`, `j` the
+sample boundaries of the recording nearest to the two times (`round(t·rate)` clamped into `[0, n]`, commit 300c9d2),
+and nothing else is ever raised -/
 theorem getSamples_slice (wv : Wav) (hwv : C16.Whole wv) (hk : knownWidth wv.width = true) (s e : QTime) :
-    wv.getSamples s e = .ok (slice wv.samples (sampleAtTime s wv.rate) (sampleAtTime e wv.rate)) := by
+    wv.getSamples s e =
+      if e < s then .error .ArgumentError
+      else .ok (slice wv.samples ((wv.sampleIndex s : Nat) : Int) ((wv.sampleIndex e : Nat) : Int)) := by
   obtain ⟨hw, n, hn⟩ := hwv
   have hf : wv.frames.length = n * wv.width := by rw [hn, Nat.mul_comm]
-  obtain ⟨h1, h2⟩ := unpack_slice wv.width hw wv.frames n hf (sampleAtTime s wv.rate) (sampleAtTime e wv.rate)
-  unfold Wav.getSamples convertFromBytes Wav.getFrames getB Wav.index indexAtTime Wav.samples
-  simp only [hk, Bool.not_true, Bool.false_eq_true, if_false]
-  rw [if_neg (by rw [h2]; simp), h1]
+  obtain ⟨h1, h2⟩ := unpack_slice wv.width hw wv.frames n hf ((wv.sampleIndex s : Nat) : Int) ((wv.sampleIndex e : Nat) : Int)
+  unfold Wav.getSamples Wav.getFrames
+  by_cases hrev : e < s
+  · rw [if_pos hrev, if_pos hrev]
+  · rw [if_neg hrev, if_neg hrev]
+    simp only
+    unfold convertFromBytes Wav.getFramesRaw getB Wav.samples
+    rw [C16.index_cast, C16.index_cast, Int.natCast_mul, Int.natCast_mul]
+    simp only [hk, Bool.not_true, Bool.false_eq_true, if_false]
+    rw [if_neg (by rw [h2]; simp), h1]
 
 /-- the sample index of the tick count `a`: `round(a/(rate·m) · rate) = round(a/m)` -/
 theorem sampleAtTime_ticks (rate m : Nat) (hr : 0 < rate) (hm : 0 < m) (a : Int) :
@@ -979,7 +1120,19 @@ theorem wavReader_eq (wv : Wav) (hwv : C16.Whole wv) (hk : knownWidth wv.width =
     (m : Nat) (hm : 0 < m) : wavReader wv m = listReader m wv.samples := by
   funext a b
   unfold wavReader listReader
-  rw [getSamples_slice wv hwv hk, sampleAtTime_ticks wv.rate m hr hm, sampleAtTime_ticks wv.rate m hr hm]
+  rw [getSamples_slice wv hwv hk]
+  unfold Wav.sampleIndex
+  rw [sampleAtTime_ticks wv.rate m hr hm, sampleAtTime_ticks wv.rate m hr hm, C16.nsamples_samples]
+  have hpos : (0 : Int) < ((wv.rate * m : Nat) : Int) := by
+    have := Nat.mul_pos hr hm; omega
+  have hiff : ((⟨b, wv.rate * m⟩ : QTime) < ⟨a, wv.rate * m⟩) ↔ b < a := by
+    show b * ((wv.rate * m : Nat) : Int) < a * ((wv.rate * m : Nat) : Int) ↔ b < a
+    constructor
+    · intro h; exact Int.lt_of_mul_lt_mul_right h (by omega)
+    · intro h; exact Int.mul_lt_mul_of_pos_right h hpos
+  by_cases hba : b < a
+  · rw [if_pos (hiff.2 hba), if_pos hba]; rfl
+  · rw [if_neg (fun h => hba (hiff.1 h)), if_neg hba]
 
 /-- **the search on an in-memory `Wav`** (bytes, any width in 1/2/4/8) is the search on its sample
 list; so every theorem above about `searchList` is a theorem about `searchWav`.  The three hypotheses on the
@@ -1153,8 +1306,9 @@ theorem splice_tier_inside (t : ITier Int) (hwf : t.WF) (a d : Int) (hd : 0 < d)
   obtain ⟨t2, e, wf2, _, _, lo2, hi2, _⟩ := splice_tier_spec t hwf a d hd label hno
   exact ⟨t2, e, wf2, by rw [lo2]; omega, by rw [hi2]; omega⟩
 
-/-- **an insertion point outside the tier's span is accepted** (`audioSplice` checks nothing, and neither does
-`insertSpace`): no error, and the named tier's span then grows by MORE than the segment — beyond the end the
+/-- **an insertion point outside the tier's span: what the tier-level splice would do** (this is the behaviour of
+`audioSplice` before the repair f81e27e, defect C18-3; the call is now rejected up front: `splice_outside_rejected`;
+the statement remains a fact about the tier operation): no error, and the named tier's span then grows by MORE than the segment — beyond the end the
 tier ends at `a + d`, later than the textgrid (whose end is `old end + d`) and than the audio (into which
 the segment is inserted at its clamped end, `len + segment`); before the start the tier starts at `a`,
 earlier than the textgrid, and the audio side reads the negative time as a Python index from the end.
@@ -1377,8 +1531,10 @@ theorem insertB_length (f g : List UInt8) (i : Int) : (insertB f i g).length = f
 
 /-- inserting the segment lengthens the audio by exactly the segment, wherever the insertion time is -/
 theorem spliceWav_length (wv : Wav) (seg : List UInt8) (a : QTime) :
-    (spliceWav wv seg a none).frames.length = wv.frames.length + seg.length := by
-  unfold spliceWav Wav.insert
+    spliceWav wv seg a none = .ok (wv.insert a seg) ∧
+    (wv.insert a seg).frames.length = wv.frames.length + seg.length := by
+  refine ⟨rfl, ?_⟩
+  unfold Wav.insert
   exact insertB_length _ _ _
 
 /-- the textgrid's end after a splice without replaced region: the old end plus `d`, whatever `d` is -/
@@ -1399,11 +1555,14 @@ theorem splice_sync (g g' : Tg Int) (name label : String) (a : Int) (wv : Wav) (
     (hts : ∀ t t', t ∈ g.tiers → t.insertSpace a (seg.length : Int) .stretch = .ok t' →
       t'.hi ≤ (wv.frames.length : Int) + (seg.length : Int))
     (h : spliceTg g [] name label a none (seg.length : Int) = .ok g') :
-    g'.hi = some (((spliceWav wv seg qa none).frames.length : Nat) : Int) := by
+    ∃ w', spliceWav wv seg qa none = .ok w' ∧ g'.hi = some ((w'.frames.length : Nat) : Int) := by
   obtain ⟨g2, ts, h2, _, hhi, _⟩ := splice_spec g g' name label a _ h
-  rw [hhi, insertSpace_hi g g2 a _ _ .stretch hH h2 hts, spliceWav_length, Int.natCast_add]
+  refine ⟨_, (spliceWav_length wv seg qa).1, ?_⟩
+  rw [hhi, insertSpace_hi g g2 a _ _ .stretch hH h2 hts, (spliceWav_length wv seg qa).2, Int.natCast_add]
 
-/-- **`d` must be the duration of the segment in the audio's own units** — the hypothesis hidden in
+/-- (Behaviour of `audioSplice` before the repair f81e27e, defect C18-3; a segment with other parameters is now
+rejected up front: `splice_params_rejected`.  The statement remains a fact about the two halves of the splice.)
+**`d` must be the duration of the segment in the audio's own units** — the hypothesis hidden in
 `splice_sync`'s use of `seg.length` for `d`.  `audioSplice` takes `d = spliceSegment.duration`, computed with
 the SEGMENT's frame rate and sample width, and inserts the segment's raw bytes into `audioObj`; nothing
 checks that the two `Wav`s have the same parameters.  Whenever they differ, `d ≠ seg.length` (in byte
@@ -1416,8 +1575,9 @@ theorem splice_segment_params_counterexample (g g' : Tg Int) (name label : Strin
     (hts : ∀ t t', t ∈ g.tiers → t.insertSpace a d .stretch = .ok t' → t'.hi ≤ (wv.frames.length : Int) + d)
     (hd : d ≠ (seg.length : Int))
     (h : spliceTg g [] name label a none d = .ok g') :
-    g'.hi ≠ some (((spliceWav wv seg qa none).frames.length : Nat) : Int) := by
-  rw [splice_span g g' name label a d _ hH hts h, spliceWav_length, Int.natCast_add]
+    ∃ w', spliceWav wv seg qa none = .ok w' ∧ g'.hi ≠ some ((w'.frames.length : Nat) : Int) := by
+  refine ⟨_, (spliceWav_length wv seg qa).1, ?_⟩
+  rw [splice_span g g' name label a d _ hH hts h, (spliceWav_length wv seg qa).2, Int.natCast_add]
   intro he
   simp only [Option.some.injEq] at he
   omega
@@ -1465,46 +1625,47 @@ theorem insertSpace_tier_hi (t : AnyTier Int) (t' : AnyTier Int) (a d H : Int) (
     rw [hi1]; have : pt.hi ≤ H := hH; omega
 
 /-- the audio after a splice with a replaced region `[a, b]`: the samples before `a`, the segment, the
-samples from `b` on — every other sample keeps value and order.  Hypotheses: whole samples (C16's domain);
-a segment of whole samples of the audio's width (`hseg`; nothing in the code checks it:
-`splice_segment_params_counterexample`); both times inside the recording (a time outside is accepted by the
-code and read as a clamped or negative Python index: `splice_outside_counterexample`); start ≤ end (a
-reversed region raises, `splice_region_reversed`, after it has duplicated audio in the caller's object). -/
+samples from `b` on — every other sample keeps value and order.  `wv.sampleIndex t` is the sample boundary of the
+recording nearest to `t` (`C16.sampleIndex_nearest`): a start before the recording addresses its first sample
+(commit 300c9d2; it used to be read as a negative Python index).  Hypotheses: whole samples (C16's domain);
+a segment of whole samples of the audio's width (`hseg`); the two times address an ordered pair of
+boundaries (`hab`; a reversed region is rejected: `splice_region_reversed`); the region does not end beyond the
+recording (`hb`: there the segment is appended and the deletion, computed in the lengthened recording, reaches
+into it). -/
 theorem spliceWav_region_samples (wv : Wav) (hwv : C16.Whole wv) (seg : List UInt8) (hseg : wv.width ∣ seg.length)
-    (a b : QTime) (ha : C16.InDur wv a) (hb : C16.InDur wv b)
-    (hab : sampleAtTime a wv.rate ≤ sampleAtTime b wv.rate) :
-    (spliceWav wv seg a (some b)).samples =
-      wv.samples.take (sampleAtTime a wv.rate).toNat ++ unpack wv.width seg ++
-        wv.samples.drop (sampleAtTime b wv.rate).toNat := by
+    (a b : QTime) (hab : ¬ b < a) (hab' : sampleAtTime a wv.rate ≤ sampleAtTime b wv.rate)
+    (hb : sampleAtTime b wv.rate ≤ wv.nsamples) :
+    ∃ w', spliceWav wv seg a (some b) = .ok w' ∧ w'.width = wv.width ∧ w'.rate = wv.rate ∧
+      w'.samples = wv.samples.take (wv.sampleIndex a) ++ unpack wv.width seg ++ wv.samples.drop (wv.sampleIndex b) := by
   unfold spliceWav
   simp only [Option.getD_some]
   have hw1 : C16.Whole (wv.insert b seg) := ⟨hwv.1, C16.insertB_whole _ _ _ hwv.2 hseg _⟩
-  have hlen : (wv.insert b seg).frames.length = wv.frames.length + seg.length := insertB_length _ _ _
-  have hdur : ∀ t, C16.InDur wv t → C16.InDur (wv.insert b seg) t := by
-    intro t ⟨h1, h2, h3⟩
-    refine ⟨h1, h2, ?_⟩
-    have h3' : t.num * ((wv.rate * wv.width : Nat) : Int) ≤ ((wv.frames.length : Nat) : Int) * (t.den : Int) := h3
-    show t.num * (((wv.insert b seg).rate * (wv.insert b seg).width : Nat) : Int) ≤
-      (((wv.insert b seg).frames.length : Nat) : Int) * (t.den : Int)
-    rw [hlen, Int.natCast_add, Int.add_mul]
-    have : (0 : Int) ≤ (seg.length : Int) * (t.den : Int) := Int.mul_nonneg (by omega) (by omega)
-    show t.num * ((wv.rate * wv.width : Nat) : Int) ≤ _
-    omega
-  rw [C16.deleteSegment_samples _ hw1 a b (hdur a ha) (hdur b hb)]
-  show ((wv.insert b seg).samples.take (sampleAtTime a wv.rate).toNat ++
-      (wv.insert b seg).samples.drop (sampleAtTime b wv.rate).toNat) = _
-  rw [C16.insert_samples wv hwv b hb seg hseg]
-  have hbr := (C16.sample_range wv hwv b hb)
-  have har := (C16.sample_range wv hwv a ha)
+  have hn := C16.insert_nsamples_le wv b seg
+  have hst : ∀ t, sampleAtTime t wv.rate ≤ wv.nsamples → (wv.insert b seg).sampleIndex t = wv.sampleIndex t := by
+    intro t ht
+    show clampSample (sampleAtTime t wv.rate) (wv.insert b seg).nsamples = clampSample (sampleAtTime t wv.rate) wv.nsamples
+    unfold clampSample; omega
+  obtain ⟨w', h1, h2, h3, h4⟩ := C16.deleteSegment_samples _ hw1 a b hab
+  refine ⟨w', h1, h2, h3, ?_⟩
+  rw [h4, hst a (by omega), hst b hb, C16.insert_samples wv hwv b seg hseg]
+  have hbr := C16.sample_range wv b
+  have hi : wv.sampleIndex a ≤ wv.sampleIndex b := by
+    unfold Wav.sampleIndex clampSample; omega
   rw [← C16.nsamples_samples] at hbr
   generalize wv.samples = S at *
-  generalize sampleAtTime a wv.rate = i at *
-  generalize sampleAtTime b wv.rate = j at *
-  have hi : i.toNat ≤ j.toNat := by omega
-  have hj : j.toNat ≤ S.length := by omega
-  have htl : (S.take j.toNat).length = j.toNat := by rw [List.length_take]; omega
+  generalize wv.sampleIndex a = i at *
+  generalize wv.sampleIndex b = j at *
+  have htl : (S.take j).length = j := by rw [List.length_take]; omega
   rw [List.append_assoc, List.take_append_of_le_length (by omega), List.take_take, Nat.min_eq_left hi,
     List.drop_left' htl, List.append_assoc]
+
+/-- a reversed region: the audio half raises `ArgumentError` (`deleteSegment`, commit 0a07868) instead of
+duplicating audio -/
+theorem spliceWav_region_reversed (wv : Wav) (seg : List UInt8) (a b : QTime) (h : b < a) :
+    spliceWav wv seg a (some b) = .error .ArgumentError := by
+  unfold spliceWav
+  simp only [Option.getD_some]
+  exact (C16.reversed_rejected (wv.insert b seg) a b [] h).2.2.2.1
 
 
 /-! ### note on mutation (what the functional model cannot show; replayed on the class)
@@ -1522,6 +1683,113 @@ the operations C13 lists, and C18's sentence is about the returned pair; the fin
 claimed.  `tgBoundariesToZeroCrossings` likewise edits the textgrid it is given (`tg.replaceTier`, returns
 the same object); when it raises on a later tier (`zcTier_I_collapse`, `zcTier_I_search_error`) the tiers
 before it have already been replaced. -/
+
+/-! ## 14b. the argument checks of `audioSplice` (commit f81e27e, defect C18-3)
+
+Before the repair `audioSplice` accepted an insertion point outside the textgrid's span and a segment of another frame
+rate / sample width (`splice_outside_counterexample`, `splice_segment_params_counterexample`: results in which tier,
+textgrid and audio end at different times) and edited the caller's `Wav` before the steps that can raise.  Now the
+checks come first; every excluded input is an `ArgumentError` with nothing copied or changed — each its own theorem. -/
+
+theorem insideTg_iff (g : Tg Int) (t : Int) :
+    insideTg g t = true ↔ ∃ lo hi, g.lo = some lo ∧ g.hi = some hi ∧ lo ≤ t ∧ t ≤ hi := by
+  unfold insideTg
+  cases hlo : g.lo with
+  | none => simp
+  | some lo =>
+    cases hhi : g.hi with
+    | none => simp
+    | some hi => simp
+
+/-- **the checks accept exactly**: a segment with the audio's parameters, `insertStart ≤ insertStop` when a region is
+given, and both times inside the textgrid's span -/
+theorem spliceCheck_ok_iff (g : Tg Int) (same : Bool) (a : Int) (b : Option Int) :
+    spliceCheck g same a b = .ok () ↔
+      same = true ∧ (∀ s, b = some s → a ≤ s) ∧ insideTg g a = true ∧ (∀ s, b = some s → insideTg g s = true) := by
+  unfold spliceCheck
+  cases same with
+  | false => simp
+  | true =>
+    cases b with
+    | none => cases h : insideTg g a <;> simp
+    | some s =>
+      by_cases h1 : s < a
+      · have : ¬ a ≤ s := by omega
+        simp [h1, this]
+      · have h1' : a ≤ s := by omega
+        cases h2 : insideTg g a <;> cases h3 : insideTg g s <;> simp [h1, h1', h3]
+
+/-- every other input is rejected with `ArgumentError`, nothing else -/
+theorem spliceCheck_error (g : Tg Int) (same : Bool) (a : Int) (b : Option Int) (e : Err)
+    (h : spliceCheck g same a b = .error e) : e = .ArgumentError := by
+  unfold spliceCheck at h
+  cases same with
+  | false => simp at h; exact h.symm
+  | true =>
+    cases b with
+    | none =>
+      cases h2 : insideTg g a <;> simp [h2] at h
+      exact h.symm
+    | some s =>
+      by_cases h1 : s < a
+      · simp [h1] at h; exact h.symm
+      · cases h2 : insideTg g a <;> cases h3 : insideTg g s <;> simp [h1, h2, h3] at h <;> exact h.symm
+
+/-- `audioSplice` is the checks followed by the splice: when they pass, the theorems about `spliceTg`
+(`splice_spec`, `splice_region`, `splice_sync`, …) apply; when they do not, nothing else runs -/
+theorem audioSpliceTg_eq (g : Tg Int) (same : Bool) (t0 : Int) (t0s : Option Int) (shifts : List (Int × Int))
+    (name label : String) (a : Int) (b : Option Int) (d : Int) :
+    audioSpliceTg g same t0 t0s shifts name label a b d =
+      match spliceCheck g same t0 t0s with
+      | .error e => .error e
+      | .ok _ => spliceTg g shifts name label a b d := rfl
+
+/-- **a segment of another frame rate or sample width is rejected** (it used to be spliced in: audio and textgrid
+ended several samples apart, or the audio got an odd number of bytes) -/
+theorem splice_params_rejected (g : Tg Int) (t0 : Int) (t0s : Option Int) (shifts : List (Int × Int))
+    (name label : String) (a : Int) (b : Option Int) (d : Int) :
+    audioSpliceTg g false t0 t0s shifts name label a b d = .error .ArgumentError := rfl
+
+/-- **an insertion point (or region end) outside the textgrid's span is rejected** (it used to be accepted: the new
+interval lay outside the textgrid, the tier ended after textgrid and audio) -/
+theorem splice_outside_rejected (g : Tg Int) (same : Bool) (t0 : Int) (t0s : Option Int) (shifts : List (Int × Int))
+    (name label : String) (a : Int) (b : Option Int) (d : Int)
+    (h : insideTg g t0 = false ∨ ∃ s, t0s = some s ∧ insideTg g s = false) :
+    audioSpliceTg g same t0 t0s shifts name label a b d = .error .ArgumentError := by
+  rw [audioSpliceTg_eq]
+  cases hc : spliceCheck g same t0 t0s with
+  | error e => rw [spliceCheck_error g same t0 t0s e hc]
+  | ok u =>
+    exfalso
+    obtain ⟨_, _, h3, h4⟩ := (spliceCheck_ok_iff g same t0 t0s).1 hc
+    rcases h with h | ⟨s, hs, h⟩
+    · rw [h3] at h; cases h
+    · rw [h4 s hs] at h; cases h
+
+/-- **a reversed region is rejected before anything is done** (it used to raise only after the caller's audio had
+been lengthened and, before 0a07868, the region's audio duplicated) -/
+theorem splice_reversed_rejected (g : Tg Int) (same : Bool) (t0 s : Int) (shifts : List (Int × Int))
+    (name label : String) (a : Int) (b : Option Int) (d : Int) (h : s < t0) :
+    audioSpliceTg g same t0 (some s) shifts name label a b d = .error .ArgumentError := by
+  rw [audioSpliceTg_eq]
+  cases hc : spliceCheck g same t0 (some s) with
+  | error e => rw [spliceCheck_error g same t0 (some s) e hc]
+  | ok u =>
+    exfalso
+    obtain ⟨_, h2, _, _⟩ := (spliceCheck_ok_iff g same t0 (some s)).1 hc
+    have := h2 s rfl
+    omega
+
+/-- the former counter-example inputs (rate 8, textgrid `[0, 100]` ticks, insertion at 104 and at −8): rejected -/
+theorem splice_outside_regression :
+    audioSpliceTg (⟨[], some 0, some 100⟩ : Tg Int) true 104 none [] "T" "new" 104 none 5 = .error .ArgumentError ∧
+    audioSpliceTg (⟨[], some 0, some 100⟩ : Tg Int) true (-8) none [] "T" "new" (-8) none 5 = .error .ArgumentError ∧
+    audioSpliceTg (⟨[], some 0, some 100⟩ : Tg Int) true 22 (some 18) [] "T" "new" 22 (some 18) 5 = .error .ArgumentError ∧
+    audioSpliceTg (⟨[], some 0, some 100⟩ : Tg Int) false 20 none [] "T" "new" 20 none 5 = .error .ArgumentError := by
+  refine ⟨?_, ?_, ?_, rfl⟩
+  · exact splice_outside_rejected _ _ _ _ _ _ _ _ _ _ (Or.inl (by decide))
+  · exact splice_outside_rejected _ _ _ _ _ _ _ _ _ _ (Or.inl (by decide))
+  · exact splice_reversed_rejected _ _ _ _ _ _ _ _ _ _ (by decide)
 
 /-! ## 15. (g) `tgBoundariesToZeroCrossings`: only timestamps change -/
 
